@@ -374,6 +374,7 @@ def main(argv):
     keys = set()
     dist = {}
     op_counts, err_kinds, prog_sizes = {}, {}, []
+    n_dust = 0
     for c, (im, mo, diffs) in zip(cases, results):
         k = mod.nontrivial_key(c, im) if hasattr(mod, "nontrivial_key") else None
         if k is not None:
@@ -394,6 +395,9 @@ def main(argv):
                 ofail = [f"oracle raised {type(e).__name__}: {e}\n{traceback.format_exc()[-800:]}"]
         if not diffs and not ofail:
             continue
+        if lang.wait_dust(im):
+            n_dust += 1          # a wait target equal to the elapsed time up to float dust: outcome is a rounding accident
+            continue
         n_diff += 1
         sig = (ofail[0] if ofail else diffs[0])[:200]
         sigkey = normsig(sig)
@@ -404,6 +408,8 @@ def main(argv):
         if not a.replay and len(violations) < 3 and not sig.startswith("[KF:") and not os.environ.get("VERIF_NOSHRINK"):
             def fails(cc, r, want=sigkey, use_oracle=bool(ofail)):
                 _im, _mo, d = r
+                if lang.wait_dust(_im):
+                    return False
                 of = []
                 if oracle and use_oracle:
                     try:
@@ -465,6 +471,7 @@ def main(argv):
         "samples": samples + extra_cov.get("samples", []),
         "traces_validated_against_impl": len(cases),
         "correspondence_disagreements": n_diff,
+        "float_ambiguous_cases_skipped": n_dust,
         "input_distribution": dist,
         "outcome_distribution": err_kinds,          # exceptions raised by the implementation, by class, over all ops
         "op_counts": op_counts,
